@@ -400,6 +400,12 @@ def grid_cdf_sampler(grid: NssGrid) -> Callable:
         if 0 in log_e_nu.shape:
             return np.array([])
 
+        # the iterator allocates the result in the common dtype of its operands: sample in
+        # double whatever the caller passes (single / half precision inputs rounded z)
+        log_e_nu = np.asarray(log_e_nu, dtype=np.float64)
+        beta = np.asarray(beta, dtype=np.float64)
+        u = None if u is None else np.asarray(u, dtype=np.float64)
+
         it = np.nditer(
             [log_e_nu, beta, u, None],
             flags=["external_loop", "buffered"],
